@@ -151,7 +151,10 @@ class World:
         q = rng.random()
         if q < 0.25:
             v = rng.choice([b'{"SECoP": "discover"}', b'{"SECoP":"discover"}', b' {"SECoP": "discover", "x": [1, 2]} ',
-                            b'{"a": null, "SECoP": "discover"}', '{"SECoP": "discover", "ä": "€"}'.encode()])
+                            b'{"a": null, "SECoP": "discover"}', '{"SECoP": "discover", "ä": "€"}'.encode(),
+                            # the same JSON document in other spellings
+                            b'{"SECoP":"disc\\u006fver"}', b'{"\\u0053ECoP": "\\u0064iscover"}', b'{\n"SECoP"\t:\r\n"discover"\n}',
+                            b'{"SECoP": "discover", "SECoP": "discover"}', b'{"x": {"SECoP": "node"}, "SECoP": "discover"}'])
             return 'request', v, True
         if q < 0.4:
             v = rng.choice([b'{"SECoP": "node"}', b'{"SECoP": 1}', b'{"secop": "discover"}', b'{}', b'{"SECoP": null}',
